@@ -283,7 +283,25 @@ func (w *World) globalFacts(e *FnEnc) {
 			}
 		}
 	}
-	for _, l := range w.specLiterals() {
+	// string literals of the contracts that can matter here: those of the function's package, of the packages of its
+	// contract callees, and of the trusted specifications (facts about every literal of every loaded contract file made
+	// string-heavy obligations unstable)
+	pkgs := map[string]bool{"": true}
+	if e.fn.Pkg != nil {
+		pkgs[e.fn.Pkg.Pkg.Path()] = true
+	} else if e.fn.Parent() != nil && e.fn.Parent().Pkg != nil {
+		pkgs[e.fn.Parent().Pkg.Pkg.Path()] = true
+	}
+	for _, b := range e.fn.Blocks {
+		for _, in := range b.Instrs {
+			if ci, ok := in.(ssa.CallInstruction); ok {
+				if f := ci.Common().StaticCallee(); f != nil && f.Pkg != nil && w.ContractFor(f) != nil {
+					pkgs[f.Pkg.Pkg.Path()] = true
+				}
+			}
+		}
+	}
+	for _, l := range w.specLiteralsFor(pkgs) {
 		lits[l] = true
 	}
 	for _, l := range sortedKeys(lits) {
@@ -295,9 +313,12 @@ func (w *World) globalFacts(e *FnEnc) {
 	}
 }
 
-func (w *World) specLiterals() []string {
-	if w.specLits != nil {
-		return w.specLits
+func (w *World) specLiteralsFor(pkgs map[string]bool) []string {
+	in := func(p string) bool {
+		if pkgs[p] || !strings.HasPrefix(p, ModulePath) {
+			return true
+		}
+		return false
 	}
 	seen := map[string]bool{}
 	var walk func(x Expr)
@@ -335,12 +356,19 @@ func (w *World) specLiterals() []string {
 		}
 	}
 	for _, p := range w.Contracts.Preds {
-		walk(p.Body)
+		if in(p.Pkg) {
+			walk(p.Body)
+		}
 	}
 	for _, a := range w.Contracts.Axioms {
-		walk(a.Expr)
+		if in(a.Pkg) {
+			walk(a.Expr)
+		}
 	}
 	for _, f := range w.Contracts.Funcs {
+		if !in(f.Pkg) {
+			continue
+		}
 		for _, c := range f.Requires {
 			walk(c.Expr)
 		}
@@ -353,11 +381,7 @@ func (w *World) specLiterals() []string {
 			}
 		}
 	}
-	w.specLits = sortedKeys(seen)
-	if w.specLits == nil {
-		w.specLits = []string{}
-	}
-	return w.specLits
+	return sortedKeys(seen)
 }
 
 // Header returns the declarations shared by all queries.
